@@ -768,11 +768,29 @@ func (r *Runner) resolveCaretBinaryExpression(v1, v2 interface{}) (interface{}, 
 }
 
 func (r *Runner) resolveEqualsEqualsBinaryExpression(expr *BinaryExpression, v1, v2 interface{}) (interface{}, error) {
+	if err := checkComparable(v1, v2); err != nil {
+		return nil, err
+	}
 	return r.valueLikeEqualTo(v1, v2), nil
 }
 
 func (r *Runner) resolveNotEqualsBinaryExpression(expr *BinaryExpression, v1, v2 interface{}) (interface{}, error) {
+	if err := checkComparable(v1, v2); err != nil {
+		return nil, err
+	}
 	return !r.valueLikeEqualTo(v1, v2), nil
+}
+
+// checkComparable reports an error when == on the two values would panic
+// (arrays, maps and functions cannot be compared).
+func checkComparable(v1, v2 interface{}) error {
+	if v1 != nil && !reflect.TypeOf(v1).Comparable() {
+		return fmt.Errorf("can't compare value of type %T", v1)
+	}
+	if v2 != nil && !reflect.TypeOf(v2).Comparable() {
+		return fmt.Errorf("can't compare value of type %T", v2)
+	}
+	return nil
 }
 
 func (r *Runner) valueLikeEqualTo(v1, v2 interface{}) bool {
@@ -795,10 +813,16 @@ func (r *Runner) valueLikeEqualTo(v1, v2 interface{}) bool {
 }
 
 func (r *Runner) resolveEqualsEqualsEqualsBinaryExpression(expr *BinaryExpression, v1, v2 interface{}) (interface{}, error) {
+	if err := checkComparable(v1, v2); err != nil {
+		return nil, err
+	}
 	return r.valueEqualTo(v1, v2), nil
 }
 
 func (r *Runner) resolveNotEqualsEqualsBinaryExpression(expr *BinaryExpression, v1, v2 interface{}) (interface{}, error) {
+	if err := checkComparable(v1, v2); err != nil {
+		return nil, err
+	}
 	return !r.valueEqualTo(v1, v2), nil
 }
 
